@@ -3,7 +3,8 @@
 // ResolutionMap really unifies the winner's parameter patterns with the supplied types and the
 // output type is the substitution of those bindings.
 //
-//   enumerated : arity (1|2), a family of <= FAMMAX hand-built OperatorImpl candidates (real
+//   enumerated : pool group (one argument | two arguments | field-wise TSB inputs | caller-requested TSB
+//                output), a family of <= FAMMAX hand-built OperatorImpl candidates (real
 //                TypePattern / ScalarPattern trees built through the non-template factories,
 //                rank = operator_dispatch_detail::operator_rank(params) exactly as the real
 //                constructors do), an argument tuple of concrete interned schemas / plain values,
@@ -31,8 +32,15 @@
 //                of independent variables; constrained ahead of unconstrained; a used default
 //                costs) hold between the effective ranks.  The rank formula itself is NOT
 //                re-specified.
+//   TSB groups : candidates whose parameter (group 3, input_ts_pattern_match, also nested under TSD and
+//                with REF fields) or output (group 4, matched against a caller-requested output by
+//                output_ts_pattern_match / ts_pattern_match) is a FIELD-WISE TSB pattern (un-named or
+//                named) against bundles with the same fields, MORE fields sharing the pattern's fields as
+//                a prefix, FEWER fields, same count but other names / order, other bundle name.  A
+//                field-wise pattern matches only bundles with exactly its fields (names, order).
 #include <hgraph/types/operator_dispatch.h>
 #include <hgraph/types/metadata/type_registry.h>
+#include <hgraph/types/time_series/endpoint_schema.h>  // time_series_schema_equivalent
 #include <hgraph/types/wiring_observer.h>
 
 #include <cstring>
@@ -57,8 +65,20 @@
 #ifndef ARGS2
 #define ARGS2 0x1fff  // bit i: arity-2 argument tuple i is in the pool
 #endif
+#ifndef POOL3
+#define POOL3 0x3fff  // bit i: TSB-input candidate i is in the pool
+#endif
+#ifndef ARGS3
+#define ARGS3 0x7ff  // bit i: TSB-input argument i is in the pool
+#endif
+#ifndef POOL4
+#define POOL4 0xff  // bit i: requested-output candidate i is in the pool
+#endif
+#ifndef ARGS4
+#define ARGS4 0x1ff  // bit i: (input, requested output) tuple i is in the pool
+#endif
 #ifndef ARITIES
-#define ARITIES 3  // bit0: arity 1, bit1: arity 2
+#define ARITIES 15  // bit0: one argument, bit1: two arguments, bit2: field-wise TSB inputs, bit3: requested TSB output
 #endif
 #ifndef SZMAX
 #define SZMAX 4  // symbolic sizes range over [0, SZMAX]
@@ -78,10 +98,17 @@ struct Sch {
     int min;   // TSW min period
     int deref; // id of the dereferenced schema
     const TSValueTypeMetaData *meta;
+    int nf = 0;                    // TSB: fields
+    const char *fn[3] = {};        // TSB: field names
+    int fch[3] = {};               // TSB: field schema ids
+    const char *bname = nullptr;   // TSB: nominal bundle name (nullptr = un-named)
 };
 enum {
-    A_TSI, A_TSF, A_TSL2I, A_TSL3I, A_TSDI, A_REFI, A_SIG, A_TSB, A_TSD_L2, A_TSL2F, A_TSWI, A_TSD_REF, A_TSS, NSCH
+    A_TSI, A_TSF, A_TSL2I, A_TSL3I, A_TSDI, A_REFI, A_SIG, A_TSB, A_TSD_L2, A_TSL2F, A_TSWI, A_TSD_REF, A_TSS,
+    // bundles for the field-wise TSB groups (A_TSB = {a:TS<int>, b:TS<float>})
+    B_A, B_ABC, B_BA, B_AX, B_AB_II, N_AB, N_AB2, B_AREF, D_AB, D_A, NSCH
 };
+constexpr int B_AB = A_TSB;
 Sch SCH[NSCH];
 const ValueTypeMetaData *SCM[NSC];
 
@@ -102,11 +129,29 @@ void build_schemas() {
     set(A_TSDI, S_TSD, SC_INT, A_TSI, 0, 0, A_TSDI, r.tsd(SCM[SC_INT], SCH[A_TSI].meta));
     set(A_REFI, S_REF, -1, A_TSI, 0, 0, A_TSI, r.ref(SCH[A_TSI].meta));
     set(A_SIG, S_SIGNAL, -1, -1, 0, 0, A_SIG, r.signal());
-    std::vector<std::pair<std::string, const TSValueTypeMetaData *>> f{{"a", SCH[A_TSI].meta}, {"b", SCH[A_TSF].meta}};
-    set(A_TSB, S_TSB, -1, -1, 0, 0, A_TSB, r.un_named_tsb(f));
+    struct F { const char *n; int s; };
+    auto bundle = [&](int id, const char *bname, std::initializer_list<F> fs, int deref) {
+        std::vector<std::pair<std::string, const TSValueTypeMetaData *>> f;
+        Sch x{S_TSB, -1, -1, 0, 0, deref, nullptr};
+        for (const F &e : fs) { f.emplace_back(e.n, SCH[e.s].meta); x.fn[x.nf] = e.n; x.fch[x.nf] = e.s; x.nf++; }
+        x.bname = bname;
+        x.meta = bname != nullptr ? r.tsb(bname, f) : r.un_named_tsb(f);
+        SCH[id] = x;
+    };
+    bundle(A_TSB, nullptr, {{"a", A_TSI}, {"b", A_TSF}}, A_TSB);
     set(A_TSD_L2, S_TSD, SC_INT, A_TSL2I, 0, 0, A_TSD_L2, r.tsd(SCM[SC_INT], SCH[A_TSL2I].meta));
     set(A_TSWI, S_TSW, SC_INT, -1, 3, 1, A_TSWI, r.tsw(SCM[SC_INT], 3, 1));
     set(A_TSD_REF, S_TSD, SC_INT, A_REFI, 0, 0, A_TSDI, r.tsd(SCM[SC_INT], SCH[A_REFI].meta));
+    bundle(B_A, nullptr, {{"a", A_TSI}}, B_A);
+    bundle(B_ABC, nullptr, {{"a", A_TSI}, {"b", A_TSF}, {"c", A_TSS}}, B_ABC);
+    bundle(B_BA, nullptr, {{"b", A_TSF}, {"a", A_TSI}}, B_BA);
+    bundle(B_AX, nullptr, {{"a", A_TSI}, {"x", A_TSF}}, B_AX);
+    bundle(B_AB_II, nullptr, {{"a", A_TSI}, {"b", A_TSI}}, B_AB_II);
+    bundle(N_AB, "c19.Pair", {{"a", A_TSI}, {"b", A_TSF}}, N_AB);
+    bundle(N_AB2, "c19.Other", {{"a", A_TSI}, {"b", A_TSF}}, N_AB2);
+    bundle(B_AREF, nullptr, {{"a", A_REFI}, {"b", A_TSF}}, B_AB);
+    set(D_AB, S_TSD, SC_INT, B_AB, 0, 0, D_AB, r.tsd(SCM[SC_INT], SCH[B_AB].meta));
+    set(D_A, S_TSD, SC_INT, B_A, 0, 0, D_A, r.tsd(SCM[SC_INT], SCH[B_A].meta));
 }
 
 // ------------------------------------------------------------------ symbolic numeric slots
@@ -115,7 +160,7 @@ std::int64_t SYMV[NSYM];
 bool SYM_USED[NSYM];
 
 // ------------------------------------------------------------------ pattern mini-AST
-enum PK { P_VAR, P_CONC, P_TS, P_TSS, P_TSL, P_TSD, P_TSW, P_TSWANY, P_REF, P_SIGNAL, P_TSBVAR };
+enum PK { P_VAR, P_CONC, P_TS, P_TSS, P_TSL, P_TSD, P_TSW, P_TSWANY, P_REF, P_SIGNAL, P_TSBVAR, P_TSB };
 const char *TSVARS[] = {"V", "W", "S"};
 const char *SCVARS[] = {"T", "U", "K"};
 const char *SZVARS[] = {"N", "M"};
@@ -136,6 +181,10 @@ struct Pat {
     int zmode = Z_FIXED;
     int z = 0;          // fixed size | slot | size var id
     int z2 = 0;         // Z_VAR_CONS_SYM: slot of the first accepted size (second is the constant 3); TSW: min slot
+    int nf = 0;                   // P_TSB: field-wise bundle pattern
+    const char *fn[3] = {};       // P_TSB: field names
+    const Pat *fp[3] = {};        // P_TSB: field patterns
+    const char *bname = nullptr;  // P_TSB: nominal bundle name (nullptr = un-named)
 };
 SP svar(int id, unsigned cons = 0) { return SP{true, id, cons}; }
 SP sconc(int sc) { return SP{false, sc, 0}; }
@@ -150,6 +199,13 @@ const Pat *p_tswany(SP s) { Pat p{P_TSWANY}; p.sp = s; return mk(p); }
 const Pat *p_ref(const Pat *t) { Pat p{P_REF}; p.ch = t; return mk(p); }
 const Pat *p_signal() { return mk(Pat{P_SIGNAL}); }
 const Pat *p_tsbvar(int v) { Pat p{P_TSBVAR}; p.var = v; return mk(p); }
+struct PF { const char *n; const Pat *p; };
+const Pat *p_tsb(std::initializer_list<PF> fs, const char *bname = nullptr) {
+    Pat p{P_TSB};
+    for (const PF &f : fs) { p.fn[p.nf] = f.n; p.fp[p.nf] = f.p; p.nf++; }
+    p.bname = bname;
+    return mk(p);
+}
 
 // real pattern trees, built with the public non-template factories
 ScalarPattern real_sp(const SP &s) {
@@ -180,6 +236,13 @@ TypePattern real_pat(const Pat *p) {
         case P_TSWANY: return TypePattern::tsw_any(real_sp(p->sp));
         case P_REF: return TypePattern::ref(real_pat(p->ch));
         case P_SIGNAL: return TypePattern::signal();
+        case P_TSB: {
+            std::vector<std::string> names;
+            std::vector<TypePattern> children;
+            for (int i = 0; i < p->nf; i++) { names.emplace_back(p->fn[i]); children.push_back(real_pat(p->fp[i])); }
+            return p->bname != nullptr ? TypePattern::tsb(std::move(names), std::move(children), p->bname, true)
+                                       : TypePattern::tsb(std::move(names), std::move(children));
+        }
         default: return TypePattern::tsb_var(TSVARS[p->var]);
     }
 }
@@ -236,6 +299,16 @@ bool rmatch(const Pat *p, int s, Bind &b) {
             if (b.ts[p->var] >= 0) return b.ts[p->var] == s;
             b.ts[p->var] = s;
             return true;
+        case P_TSB:
+            // a field-wise pattern matches only bundles with exactly its fields: same count, names and order;
+            // a nominal pattern additionally needs the same bundle name (a structural one ignores the name)
+            if (S.k != S_TSB || S.nf != p->nf) return false;
+            if (p->bname != nullptr && (S.bname == nullptr || std::strcmp(p->bname, S.bname) != 0)) return false;
+            for (int i = 0; i < p->nf; i++) {
+                if (std::strcmp(p->fn[i], S.fn[i]) != 0) return false;
+                if (!rmatch(p->fp[i], S.fch[i], b)) return false;
+            }
+            return true;
     }
     return false;
 }
@@ -250,14 +323,28 @@ const TSValueTypeMetaData *rsubst(const Pat *p, const Bind &b) {
             int sc = p->sp.var ? b.sc[p->sp.id] : p->sp.id;
             return sc >= 0 ? r.ts(SCM[sc]) : nullptr;
         }
-        default: return nullptr;  // the pool's outputs are variables, concrete leaves or TS<scalar>
+        case P_TSB: {
+            std::vector<std::pair<std::string, const TSValueTypeMetaData *>> f;
+            for (int i = 0; i < p->nf; i++) {
+                const TSValueTypeMetaData *c = rsubst(p->fp[i], b);
+                if (c == nullptr) return nullptr;
+                f.emplace_back(p->fn[i], c);
+            }
+            return p->bname != nullptr ? r.tsb(p->bname, f) : r.un_named_tsb(f);
+        }
+        default: return nullptr;  // the pool's outputs are variables, concrete leaves, TS<scalar> or bundles of those
     }
+}
+bool any_field(const Pat *p, bool (*f)(const Pat *)) {
+    for (int i = 0; i < p->nf; i++) if (f(p->fp[i])) return true;
+    return false;
 }
 bool has_wildcard(const Pat *p) {  // substitution cannot reproduce the argument through these
     if (p == nullptr) return false;
     if (p->k == P_SIGNAL || p->k == P_TSWANY) return true;
     if (p->k == P_TSL && p->zmode == Z_FIXED && p->z == 0) return true;
     if (p->k == P_TSL && p->zmode == Z_FIXED_SYM && SYMV[p->z] == 0) return true;
+    if (p->k == P_TSB) return any_field(p, has_wildcard);
     return has_wildcard(p->ch);
 }
 int sym_size_slot(const Pat *p) {  // slot of a symbolic size that ts_pattern_resolve would intern, or -1
@@ -288,10 +375,10 @@ enum { V = 0, W = 1, S = 2 };
 enum { T = 0, U = 1, K = 2 };
 enum { N = 0, M = 1 };
 
-std::vector<Cand> C1, C2;
+std::vector<Cand> C1, C2, C3, C4;
 // documented "more specific than" pairs (index into C1 / C2): first must rank strictly below second
 struct Ord { int a, b; };
-std::vector<Ord> ORD1, ORD2;
+std::vector<Ord> ORD1, ORD2, ORD3, ORD4;
 
 void build_candidates() {
     const unsigned INT_STR = (1u << SC_INT) | (1u << SC_STR);
@@ -341,12 +428,45 @@ void build_candidates() {
         /*15*/ {"TSL[TS[T],F],TS[T]", 2, {in(p_tsl(p_ts(svar(T)), Z_FIXED_SYM, Y_F0)), in(p_ts(svar(T)))}, p_ts(svar(T))},
     };
     ORD2 = {{0, 1}, {14, 2}, {2, 1}, {1, 4}, {3, 4}, {0, 13}, {7, 8}, {14, 0}};
+    // group 3: field-wise TSB parameter patterns (input direction), one argument
+    auto tsT = [] { return p_ts(svar(T)); };
+    auto tsU = [] { return p_ts(svar(U)); };
+    auto tsK = [] { return p_ts(svar(K)); };
+    C3 = {
+        /* 0*/ {"narrow[a:T]", 1, {in(p_tsb({{"a", tsT()}}))}, tsT()},
+        /* 1*/ {"wide[a:T,b:U]", 1, {in(p_tsb({{"a", tsT()}, {"b", tsU()}}))}, tsU()},
+        /* 2*/ {"wide3[a:T,b:U,c:K]", 1, {in(p_tsb({{"a", tsT()}, {"b", tsU()}, {"c", tsK()}}))}, tsK()},
+        /* 3*/ {"same[a:T,b:T]", 1, {in(p_tsb({{"a", tsT()}, {"b", tsT()}}))}, tsT()},
+        /* 4*/ {"swapped[b:U,a:T]", 1, {in(p_tsb({{"b", tsU()}, {"a", tsT()}}))}, tsU()},
+        /* 5*/ {"renamed[a:T,x:U]", 1, {in(p_tsb({{"a", tsT()}, {"x", tsU()}}))}, tsU()},
+        /* 6*/ {"Pair[a:T,b:U]", 1, {in(p_tsb({{"a", tsT()}, {"b", tsU()}}, "c19.Pair"))}, tsU()},
+        /* 7*/ {"TSB[S]", 1, {in(p_tsbvar(S))}, p_tsbvar(S)},
+        /* 8*/ {"half[a:int,b:U]", 1, {in(p_tsb({{"a", p_ts(sconc(SC_INT))}, {"b", tsU()}}))}, tsU()},
+        /* 9*/ {"fieldvar[a:V,b:U]", 1, {in(p_tsb({{"a", p_var(V)}, {"b", tsU()}}))}, p_var(V)},
+        /*10*/ {"TSD[K,narrow]", 1, {in(p_tsd(svar(K), p_tsb({{"a", tsT()}})))}, tsT()},
+        /*11*/ {"TSD[K,wide]", 1, {in(p_tsd(svar(K), p_tsb({{"a", tsT()}, {"b", tsU()}})))}, tsU()},
+        /*12*/ {"reffield[a:REF T,b:U]", 1, {in(p_tsb({{"a", p_ref(tsT())}, {"b", tsU()}}))}, tsT()},
+        /*13*/ {"V", 1, {in(p_var(V))}, p_var(V)},
+    };
+    ORD3 = {{8, 1}, {3, 1}, {1, 9}, {1, 13}, {9, 13}, {11, 13}};
+    // group 4: field-wise TSB OUTPUT patterns against a caller-requested output (output direction)
+    C4 = {
+        /* 0*/ {"->narrow[a:T]", 1, {in(tsT())}, p_tsb({{"a", tsT()}})},
+        /* 1*/ {"->wide[a:T,b:U]", 1, {in(tsT())}, p_tsb({{"a", tsT()}, {"b", tsU()}})},
+        /* 2*/ {"->swapped[b:U,a:T]", 1, {in(tsT())}, p_tsb({{"b", tsU()}, {"a", tsT()}})},
+        /* 3*/ {"->Pair[a:T,b:U]", 1, {in(tsT())}, p_tsb({{"a", tsT()}, {"b", tsU()}}, "c19.Pair")},
+        /* 4*/ {"narrow->wide", 1, {in(p_tsb({{"a", tsT()}}))}, p_tsb({{"a", tsT()}, {"b", tsU()}})},
+        /* 5*/ {"->wide3[a:T,b:U,c:K]", 1, {in(tsT())}, p_tsb({{"a", tsT()}, {"b", tsU()}, {"c", tsK()}})},
+        /* 6*/ {"->V", 1, {in(tsT())}, p_var(V)},
+        /* 7*/ {"->TS[T]", 1, {in(tsT())}, tsT()},
+    };
+    ORD4 = {};
 }
 
 // ------------------------------------------------------------------ arguments
 struct Arg { bool scalar; int id; };  // schema id | scalar id (plain value)
-struct ArgTuple { int n; Arg a[2]; };
-std::vector<ArgTuple> T1, T2;
+struct ArgTuple { int n; Arg a[2]; int want = -1; };  // want: caller-requested output schema id (-1 = none)
+std::vector<ArgTuple> T1, T2, T3, T4;
 void build_args() {
     for (int s : {A_TSI, A_TSF, A_TSL2I, A_TSL3I, A_TSDI, A_REFI, A_SIG, A_TSB, A_TSD_L2, A_TSL2F, A_TSWI, A_TSD_REF, A_TSS})
         T1.push_back(ArgTuple{1, {{false, s}}});
@@ -364,6 +484,18 @@ void build_args() {
     t({false, A_TSF}, {false, A_SIG});
     t({false, A_TSL2I}, {false, A_TSI});
     t({false, A_REFI}, {false, A_TSI});
+    for (int s : {(int)B_A, B_AB, (int)B_ABC, (int)B_BA, (int)B_AX, (int)N_AB, (int)D_AB, (int)B_AB_II, (int)B_AREF, (int)D_A, (int)N_AB2})
+        T3.push_back(ArgTuple{1, {{false, s}}});
+    auto q = [](int in_s, int want) { ArgTuple x{1, {{false, in_s}}}; x.want = want; T4.push_back(x); };
+    q(A_TSI, B_AB);
+    q(A_TSI, B_A);
+    q(A_TSI, B_ABC);
+    q(A_TSI, B_BA);
+    q(A_TSI, N_AB);
+    q(A_TSF, B_AB);
+    q(B_A, B_AB);
+    q(A_TSI, -1);
+    q(A_TSI, B_AX);
 }
 WiringArg real_arg(const Arg &a) {
     WiringArg w;
@@ -414,6 +546,9 @@ int ref_matches(const Cand &c, const ArgTuple &t, Bind &b) {
     int need = 0;
     for (int i = 0; i < c.np; i++) if (!c.p[i].has_default) need++;
     if (t.n < need || t.n > c.np) return 0;
+    // a caller-requested output must be matched by the output pattern (output direction; the pool's output
+    // patterns contain no SIGNAL / REF, so the structural rules coincide with the input direction's)
+    if (t.want >= 0 && !rmatch(c.out, t.want, b)) return 0;
     bool unspec = false;
     for (int i = 0; i < t.n; i++) {
         const Param &p = c.p[i];
@@ -469,7 +604,7 @@ Res run_resolve(const Cand *const *fam, int n, const int *perm, const ArgTuple &
     Res r;
     int before = obs.count;
     try {
-        ResolvedOperatorCall rc = reg.resolve(name, std::span<const WiringArg>{args}, std::nullopt, nullptr, {}, {}, &w);
+        ResolvedOperatorCall rc = reg.resolve(name, std::span<const WiringArg>{args}, std::nullopt, t.want >= 0 ? SCH[t.want].meta : nullptr, {}, {}, &w);
         r.kind = R_WIN;
         r.winner = rc.impl != nullptr ? pos_of(rc.impl->label, fam, n) : -1;
         r.map = rc.map;
@@ -531,8 +666,15 @@ int pick_from_mask(const char *what, unsigned mask, int limit, int lo) {
     return -1;
 }
 // one (argument tuple, family) case: every member alone, then the family under every registration order
-void check_case(int arity, const ArgTuple &t, int n, const Cand *const *fam, const int *famidx, Wiring &w, Obs &obs) {
-    const std::vector<Ord> &ords = arity == 1 ? ORD1 : ORD2;
+bool prefix_narrower(const Pat *p, int s) {  // field-wise pattern whose fields are a strict prefix of the bundle's
+    if (p == nullptr) return false;
+    if (p->k == P_TSD && SCH[s].k == S_TSD) return prefix_narrower(p->ch, SCH[s].ch);
+    if (p->k != P_TSB || SCH[s].k != S_TSB || p->nf >= SCH[s].nf) return false;
+    for (int i = 0; i < p->nf; i++) if (std::strcmp(p->fn[i], SCH[s].fn[i]) != 0) return false;
+    return true;
+}
+void check_case(int group, const ArgTuple &t, int n, const Cand *const *fam, const int *famidx, Wiring &w, Obs &obs) {
+    const std::vector<Ord> &ords = group == 1 ? ORD1 : group == 2 ? ORD2 : group == 3 ? ORD3 : ORD4;
     // ---- each member alone: "matches" and effective rank
     bool m[4];
     int r[4];
@@ -558,6 +700,10 @@ void check_case(int arity, const ArgTuple &t, int n, const Cand *const *fam, con
             ok_out &= s.out != nullptr && s.out == rsubst(fam[i]->out, b);
         }
         if (exp == 0) verif_reach("single_reject");
+        if (exp == 0 && !m[i] && t.want < 0 && !t.a[0].scalar && prefix_narrower(fam[i]->p[0].ts, t.a[0].id))
+            verif_reach("tsb_prefix_narrower_pattern_rejected");
+        if (exp == 0 && !m[i] && t.want >= 0 && prefix_narrower(fam[i]->out, t.want))
+            verif_reach("requested_output_prefix_narrower_pattern_rejected");
     }
     verif_assert(ok_exc, "C19.no_unexpected_exception");
     verif_assert(ok_ref, "C19.matches_iff_unifiable");
@@ -598,13 +744,17 @@ void check_case(int arity, const ArgTuple &t, int n, const Cand *const *fam, con
                     ok_subst &= scalar_pattern_resolve(real_sp(c.p[i].sp), x.map) == SCM[t.a[i].id];
                 } else if (x.subst[i] != nullptr) {
                     const TSValueTypeMetaData *supplied = t.a[i].scalar ? treg.ts(SCM[t.a[i].id]) : SCH[t.a[i].id].meta;
-                    ok_subst &= treg.dereference(x.subst[i]) == treg.dereference(supplied);
+                    // pointer identity modulo dereference; a structural bundle pattern may stand for a nominal bundle
+                    // with the same fields, which hgraph's own schema equivalence identifies
+                    const TSValueTypeMetaData *sa = treg.dereference(x.subst[i]), *sb = treg.dereference(supplied);
+                    ok_subst &= sa == sb || time_series_schema_equivalent(sa, sb);
                 }
             }
             Bind b;
             int exp = ref_matches(c, t, b);
             if (exp == 1) ok_out &= x.out != nullptr && x.out == rsubst(c.out, b);
             ok_out &= x.out != nullptr;
+            if (t.want >= 0) ok_out &= x.out != nullptr && time_series_schema_equivalent(x.out, SCH[t.want].meta);
         }
         if (!have_first) { first = x; have_first = true; }
         else {
@@ -641,6 +791,10 @@ void check_case(int arity, const ArgTuple &t, int n, const Cand *const *fam, con
         if (nm >= 2 && n >= 3) verif_reach("winner_among_several_matching_3_orders");
         if (!first.map.ts_vars.empty() && !first.map.scalar_vars.empty()) verif_reach("ts_and_scalar_vars_bound");
         if (!first.map.size_vars.empty()) verif_reach("size_var_bound");
+        const Cand &wc = *fam[first.winner >= 0 ? first.winner : 0];
+        if (!wc.p[0].scalar && wc.p[0].ts->k == P_TSB && t.want < 0) verif_reach("tsb_fieldwise_winner");
+        if (!wc.p[0].scalar && wc.p[0].ts->k == P_TSD && wc.p[0].ts->ch->k == P_TSB) verif_reach("tsb_nested_fieldwise_winner");
+        if (t.want >= 0 && wc.out->k == P_TSB) verif_reach("requested_output_tsb_winner");
     }
     if (n == 4) verif_reach("four_member_family_24_orders");
     if (first.kind == R_NOMATCH) verif_reach("no_match_error");
@@ -660,9 +814,11 @@ static void native_sweep(Wiring &w, Obs &obs) {
     long cases = 0;
     for (auto &sz : SZ) {
         for (int i = 0; i < NSYM; i++) SYMV[i] = sz[i];
-        for (int arity = 1; arity <= 2; arity++) {
-            const std::vector<Cand> &pool = arity == 1 ? C1 : C2;
-            const std::vector<ArgTuple> &tuples = arity == 1 ? T1 : T2;
+        for (int arity = 1; arity <= 4; arity++) {
+            if (!((ARITIES >> (arity - 1)) & 1)) continue;
+            if (arity >= 3 && &sz != &SZ[0]) continue;  // the TSB groups have no symbolic sizes
+            const std::vector<Cand> &pool = arity == 1 ? C1 : arity == 2 ? C2 : arity == 3 ? C3 : C4;
+            const std::vector<ArgTuple> &tuples = arity == 1 ? T1 : arity == 2 ? T2 : arity == 3 ? T3 : T4;
             int P = (int)pool.size();
             for (int ti = 0; ti < (int)tuples.size(); ti++)
                 for (int n = FAMMIN; n <= (FAMMAX < 3 ? FAMMAX : 3); n++)
@@ -703,11 +859,11 @@ extern "C" int harness_main() {
     SYMV[Y_KF] = verif_range("kw_fixed", 0, SZMAX);
 
     // ---- enumerated shape
-    int arity = (ARITIES == 3) ? 1 + verif_choice("arity", 2) : (ARITIES == 2 ? 2 : 1);
-    const std::vector<Cand> &pool = arity == 1 ? C1 : C2;
-    const std::vector<ArgTuple> &tuples = arity == 1 ? T1 : T2;
-    unsigned pmask = arity == 1 ? (unsigned)POOL1 : (unsigned)POOL2;
-    unsigned amask = arity == 1 ? (unsigned)ARGS1 : (unsigned)ARGS2;
+    int arity = 1 + pick_from_mask("arity", (unsigned)ARITIES, 4, 0);  // pool group 1..4
+    const std::vector<Cand> &pool = arity == 1 ? C1 : arity == 2 ? C2 : arity == 3 ? C3 : C4;
+    const std::vector<ArgTuple> &tuples = arity == 1 ? T1 : arity == 2 ? T2 : arity == 3 ? T3 : T4;
+    unsigned pmask = arity == 1 ? (unsigned)POOL1 : arity == 2 ? (unsigned)POOL2 : arity == 3 ? (unsigned)POOL3 : (unsigned)POOL4;
+    unsigned amask = arity == 1 ? (unsigned)ARGS1 : arity == 2 ? (unsigned)ARGS2 : arity == 3 ? (unsigned)ARGS3 : (unsigned)ARGS4;
     int ti = pick_from_mask("args", amask, (int)tuples.size(), 0);
     const ArgTuple &t = tuples[ti];
     int n = FAMMIN + verif_choice("fam_n", FAMMAX - FAMMIN + 1);
